@@ -106,7 +106,7 @@ class InitiateRequest(AbstractXDlmsApdu):
         out.append(self.TAG)
         if self.dedicated_key:
             out.append(0x01)
-            out.append(len(self.dedicated_key))
+            out.extend(a_xdr.encode_variable_integer(len(self.dedicated_key)))
             out.extend(self.dedicated_key)
         else:
             out.append(0x00)
